@@ -46,6 +46,16 @@ func diffAccessor(a, b string) string {
 	return ""
 }
 
+func floodKind(fl *spec.Flood) string {
+	if fl.Op.Sub != nil {
+		return fl.Op.Sub.K
+	}
+	return fl.Op.K
+}
+
+// floodOp is call i of a flood (spec.FloodOp, shared with the generator so that witnesses name the same calls).
+func floodOp(fl *spec.Flood, i int) ops.Op { return spec.FloodOp(fl, i) }
+
 func runC09(s *spec.Spec, logPath string) {
 	out := &spec.Result{}
 	setClock(s.Clock)
@@ -121,6 +131,39 @@ func runC09(s *spec.Spec, logPath string) {
 				case st.Clock != nil:
 					simrt.AdvanceClock(time.Duration(*st.Clock) * time.Second)
 					continue
+				case st.Flood != nil:
+					// volume fault: many distinct valid calls back to back; they are load (not compared) - the witnesses
+					// before, after and beside them are what the oracle judges
+					fl := st.Flood
+					for i := 0; i < fl.Count; i++ {
+						op := floodOp(fl, i)
+						name := op.String()
+						simrt.BeginCall()
+						simrt.CallBudget(callBudgetOf(name), name)
+						setCall(name)
+						d := ops.Run(op)
+						setCall("")
+						how := "after returning"
+						if strings.Contains(d, "PANIC") {
+							how = "after a recovered panic"
+						}
+						simrt.EndCall(how)
+						simrt.Probe("flood_calls")
+						if i+1 < fl.Count {
+							simrt.OpBoundary()
+						}
+					}
+					simrt.Probe("fault_step_flood")
+					simrt.Probe("flood_" + fl.Unit + "_" + floodKind(fl))
+					if fl.Count > 128 {
+						simrt.Probe("flood_over_128_distinct")
+					}
+					if fl.Count > 1024 {
+						simrt.Probe("flood_over_1024_distinct")
+					}
+					if fl.Count > 16384 {
+						simrt.Probe("flood_over_16384_distinct")
+					}
 				case st.U != nil:
 					simrt.BeginCall()
 					simrt.CallBudget(callBudgetOf(s.Universe[*st.U].String()), s.Universe[*st.U].String())
